@@ -489,8 +489,18 @@ class DMRGEngine(IterativeSweeps):
                 )
             self.psi.canonical_form()
 
+    def get_resume_data(self, sequential_simulations=False):
+        data = super().get_resume_data(sequential_simulations)
+        if not sequential_simulations:
+            # :meth:`run_iteration` and :meth:`is_converged` compare with the previous iteration
+            data['sweep_stats'] = {k: np.array(v) for k, v in self.sweep_stats.items()}
+        return data
+
     def reset_stats(self, resume_data=None):
-        """Reset the statistics, useful if you want to start a new sweep run."""
+        """Reset the statistics, useful if you want to start a new sweep run.
+
+        When resuming a run, the `sweep_stats` of the interrupted run (if given in `resume_data`) are continued.
+        """
         super().reset_stats(resume_data)
         self.update_stats = {
             'i0': [],
@@ -516,6 +526,9 @@ class DMRGEngine(IterativeSweeps):
             'max_chi': [],
             'norm_err': [],
         }
+        if resume_data is not None and 'sweep_stats' in resume_data:
+            for k, v in resume_data['sweep_stats'].items():
+                self.sweep_stats[k] = list(v)
 
     def sweep(self, optimize=True, meas_E_trunc=False):
         """One 'sweep' of the algorithm.
